@@ -5,6 +5,7 @@ C04 — Speculation is bounded by the prediction window; lockstep never speculat
 simulates a *new* frame), `advanceLockstepFrame` is `advance_lockstep_frame`, `loadFrame` is
 `SyncLayer::load_frame` (the only producer of LoadGameState requests).
 -/
+import GgrsModel.Model.Inventory
 import GgrsModel.Model.P2P
 import GgrsModel.Proofs.Shape
 import GgrsModel.Proofs.Session
